@@ -1,27 +1,71 @@
 (* Property C18 — No RPC endpoint can make the node sign unless explicitly opted in.
 
    Model: Rpc/Registry.v (rpc.RegisterName / isProtectedMethodName / NewServer, node.start*,
-   sense.EnvBool); data: Generated/GenApis.v, regenerated from the current tree on every run
-   (services and method sets as suitableCallbacks sees them on a live node, per-method
-   "reaches a keystore signing entry point" bit [e_signs] from a VTA call graph, the runtime
-   names of the functions calling RegisterName, isProtectedMethodName on every name).
+   sense.EnvBool); data: Generated/GenApis.v, regenerated from the current tree on every run:
+   the API lists of a live node on an aquahash chain (gen_apis) and on a clique chain
+   (gen_apis_clique), method sets as suitableCallbacks sees them, per-method "reaches a keystore
+   signing entry point" bit [e_signs] and the set of entry points reached (VTA call graph), the
+   runtime names of the functions calling RegisterName, isProtectedMethodName on every name.
 
-   gen_exposed f t c gen_apis = the registry served on transport t (InProc | IPC | HTTP | WS)
-   when the five UNSAFE_* variables read as f and the module whitelists are c; None = the
-   start function fails.
+   gen_exposed f t c apis = the registry served on transport t (InProc | IPC | HTTP | WS) when
+   the five UNSAFE_* variables read as f and the module whitelists are c (universally
+   quantified: this covers admin_startRPC / admin_startWS, which re-enter startHTTP / startWS
+   with caller-chosen whitelists at run time); None = the start function fails.
 
-   FULL-STRENGTH STATEMENT (false of the unchanged tree, see the _refuted theorems):
+   FULL-STRENGTH STATEMENT (false of the current tree, see C18_default_env_no_signing_refuted):
 
      default_env_no_signing :
-       forall t c r e, gen_exposed all_off t c gen_apis = Some r ->
-                       In e (r_entries r) -> e_signs e = false.
+       forall apis t c r e, In apis gen_api_sets -> gen_exposed all_off t c apis = Some r ->
+                            In e (r_entries r) -> e_signs e = false.
 
-   What holds instead: every served signing method on a transport that is not opted in is one
-   of the four in [unprotected_signers] (personal_signAndSendTransaction, miner_start,
-   aqua_getWork, testing_getBlockTemplate); no method with a protected NAME is served; and
-   the opt-in is strictly per transport. *)
+   It holds for every method except miner_start, aqua_getWork and testing_getBlockTemplate,
+   which start the miner and thereby (on a clique chain only) block sealing through the
+   keystore entry point SignHashAllowed — and reach no other entry point. *)
 From AQ Require Import Lib.Bytes Rpc.Registry Generated.GenApis Rpc.RpcModel Rpc.RpcProofs.
 Import ListNotations.
+
+(* --- the main theorem: default environment, every chain kind, transport and whitelist --- *)
+
+Theorem C18_default_env_no_signing_partial :
+  forall (apis : list api) (t : transport) (c : config) (r : registry) (e : entry),
+  In apis gen_api_sets ->
+  gen_exposed all_off t c apis = Some r -> In e (r_entries r) ->
+  e_signs e = false \/
+  In (e_ns e, e_wire e) [ (bs "miner", bs "start"); (bs "aqua", bs "getWork"); (bs "testing", bs "getBlockTemplate") ].
+Proof. exact default_env_no_signing_partial. Qed.
+Print Assumptions C18_default_env_no_signing_partial.
+
+(* the same for all 32 environments: only the transport's own flag matters *)
+Theorem C18_no_optin_signers_listed_partial :
+  forall (apis : list api) (f : flags) (t : transport) (c : config) (r : registry) (e : entry),
+  In apis gen_api_sets ->
+  flag_of f t = false ->
+  gen_exposed f t c apis = Some r -> In e (r_entries r) -> e_signs e = true ->
+  In (e_ns e, e_wire e) unprotected_signers.
+Proof. exact no_optin_signers_listed. Qed.
+Print Assumptions C18_no_optin_signers_listed_partial.
+
+(* the exceptions reach no keystore entry point other than SignHashAllowed (block sealing) *)
+Theorem C18_exceptions_only_seal :
+  forallb targets_check gen_sign_targets = true.
+Proof. exact gen_exceptions_only_seal. Qed.
+Print Assumptions C18_exceptions_only_seal.
+
+(* the full statement is refuted: default environment, default whitelist, HTTP, clique chain *)
+Theorem C18_default_env_no_signing_refuted :
+  exists apis t c r e, In apis gen_api_sets /\ gen_exposed all_off t c apis = Some r /\ In e (r_entries r) /\
+                       e_signs e = true /\ wire_name e = n_aqua_getWork.
+Proof. exact default_env_no_signing_refuted. Qed.
+Print Assumptions C18_default_env_no_signing_refuted.
+
+Theorem C18_default_env_exceptions_served :
+  serves_signing gen_apis_clique all_off IPC gen_default_config n_miner_start = true /\
+  serves_signing gen_apis_clique all_off IPC gen_default_config n_aqua_getWork = true /\
+  serves_signing gen_apis_clique all_off IPC gen_default_config n_testing_gbt = true /\
+  serves_signing gen_apis_clique all_off WS gen_default_config n_aqua_getWork = true /\
+  serves_signing gen_apis all_off HTTP gen_default_config n_aqua_getWork = true.
+Proof. exact default_env_exceptions_served. Qed.
+Print Assumptions C18_default_env_exceptions_served.
 
 (* --- generic: RegisterName, for any service, any registry, any caller, any environment --- *)
 
@@ -45,60 +89,32 @@ Print Assumptions C18_register_removes_exactly_protected.
 (* --- generic in the API list: without opt-in no callback with a protected name is served --- *)
 
 Theorem C18_no_optin_no_protected_name :
-  forall (f : flags) (t : transport) (c : config) (r : registry) (e : entry),
+  forall (apis : list api) (f : flags) (t : transport) (c : config) (r : registry) (e : entry),
   flag_of f t = false ->
-  gen_exposed f t c gen_apis = Some r -> In e (r_entries r) ->
+  gen_exposed f t c apis = Some r -> In e (r_entries r) ->
   e_sub e = true \/ is_protected (e_go e) = false.
 Proof. exact no_optin_no_protected_gen. Qed.
 Print Assumptions C18_no_optin_no_protected_name.
 
-(* --- the central clause, refuted at full strength --- *)
+(* --- what a transport serves is exactly what its start function selects and RegisterName keeps --- *)
 
-Theorem C18_default_env_no_signing_refuted :
-  exists t c r e, gen_exposed all_off t c gen_apis = Some r /\ In e (r_entries r) /\
-                  e_signs e = true /\ wire_name e = n_personal_sasT.
-Proof. exact default_env_no_signing_refuted. Qed.
-Print Assumptions C18_default_env_no_signing_refuted.
+Theorem C18_exposed_sound :
+  forall (apis : list api) (f : flags) (t : transport) (c : config) (r : registry) (e : entry),
+  gen_exposed f t c apis = Some r -> In e (r_entries r) ->
+  (exists m, In m (a_methods gen_meta_api) /\ e = mk_entry gen_meta_api m)
+  \/ (exists a m, In a apis /\ selected t c a = true /\ In m (a_methods a) /\ e = mk_entry a m
+                  /\ (m_sub m = true \/ is_protected (m_name m) = false \/ flag_of f t = true)).
+Proof. exact gen_exposed_sound. Qed.
+Print Assumptions C18_exposed_sound.
 
-Theorem C18_default_env_no_signing_refuted_inproc :
-  exists r e, gen_exposed all_off InProc gen_default_config gen_apis = Some r /\ In e (r_entries r) /\
-              e_signs e = true /\ wire_name e = n_personal_sasT.
-Proof. exact default_env_no_signing_refuted_inproc. Qed.
-Print Assumptions C18_default_env_no_signing_refuted_inproc.
-
-Theorem C18_default_env_no_signing_refuted_http_ws :
-  (exists r e, gen_exposed all_off HTTP cfg_personal gen_apis = Some r /\ In e (r_entries r) /\
-               e_signs e = true /\ wire_name e = n_personal_sasT)
-  /\ (exists r e, gen_exposed all_off WS cfg_personal gen_apis = Some r /\ In e (r_entries r) /\
-               e_signs e = true /\ wire_name e = n_personal_sasT).
-Proof. exact default_env_no_signing_refuted_http_ws. Qed.
-Print Assumptions C18_default_env_no_signing_refuted_http_ws.
-
-Theorem C18_default_env_no_signing_refuted_public_getwork :
-  (exists r e, gen_exposed all_off HTTP gen_default_config gen_apis = Some r /\ In e (r_entries r) /\
-               e_signs e = true /\ wire_name e = n_aqua_getWork)
-  /\ (exists r e, gen_exposed all_off WS gen_default_config gen_apis = Some r /\ In e (r_entries r) /\
-               e_signs e = true /\ wire_name e = n_aqua_getWork).
-Proof. exact default_env_no_signing_refuted_public_getwork. Qed.
-Print Assumptions C18_default_env_no_signing_refuted_public_getwork.
-
-(* --- the remainder: for every environment (all 32), every transport whose own flag is off,
-       every whitelist configuration, the served signing methods are exactly accounted for --- *)
-
-Theorem C18_default_env_no_signing_partial :
-  forall (t : transport) (c : config) (r : registry) (e : entry),
-  gen_exposed all_off t c gen_apis = Some r -> In e (r_entries r) -> e_signs e = true ->
-  In (e_ns e, e_wire e) unprotected_signers.
-Proof. exact default_env_no_signing_partial. Qed.
-Print Assumptions C18_default_env_no_signing_partial.
-
-Theorem C18_no_optin_signers_listed_partial :
-  forall (f : flags) (t : transport) (c : config) (r : registry) (e : entry),
-  flag_of f t = false ->
-  gen_exposed f t c gen_apis = Some r -> In e (r_entries r) -> e_signs e = true ->
-  In (e_ns e, e_wire e) unprotected_signers.
-Proof. exact no_optin_signers_listed. Qed.
-Print Assumptions C18_no_optin_signers_listed_partial.
+Theorem C18_exposed_complete :
+  forall (apis : list api) (f : flags) (t : transport) (c : config) (r : registry) (a : api) (m : method),
+  gen_exposed f t c apis = Some r ->
+  In a apis -> selected t c a = true -> In m (a_methods a) ->
+  (m_sub m = true \/ is_protected (m_name m) = false \/ flag_of f t = true) ->
+  exists e, In e (r_entries r) /\ same_key e (mk_entry a m) = true.
+Proof. exact gen_exposed_complete. Qed.
+Print Assumptions C18_exposed_complete.
 
 (* --- opting in for one transport affects that transport only --- *)
 
@@ -132,18 +148,19 @@ Print Assumptions C18_callers_select_own_flag.
 
 Example C18_default_env_serves_something :
   (100 <=? count_entries (gen_exposed all_off InProc gen_default_config gen_apis))%N = true /\
-  (100 <=? count_entries (gen_exposed all_off IPC gen_default_config gen_apis))%N = true /\
+  (100 <=? count_entries (gen_exposed all_off IPC gen_default_config gen_apis_clique))%N = true /\
   (40 <=? count_entries (gen_exposed all_off HTTP gen_default_config gen_apis))%N = true /\
-  (40 <=? count_entries (gen_exposed all_off WS gen_default_config gen_apis))%N = true.
+  (40 <=? count_entries (gen_exposed all_off WS gen_default_config gen_apis_clique))%N = true.
 Proof. vm_compute. repeat split; reflexivity. Qed.
 
 Example C18_optin_ipc_enables_ipc_only :
-  serves_signing only_ipc IPC gen_default_config n_personal_sign = true /\
-  serves_signing only_ipc IPC gen_default_config n_aqua_sign = true /\
-  serves only_ipc InProc gen_default_config n_personal_sign = false /\
-  serves only_ipc HTTP cfg_personal n_personal_sign = false /\
-  serves only_ipc WS cfg_personal n_personal_sign = false /\
-  serves all_off IPC gen_default_config n_personal_sign = false /\
-  serves_signing only_http HTTP gen_default_config n_aqua_sign = true /\
-  serves only_http IPC gen_default_config n_aqua_sign = false.
+  serves_signing gen_apis only_ipc IPC gen_default_config n_personal_sign = true /\
+  serves_signing gen_apis only_ipc IPC gen_default_config n_personal_sasT = true /\
+  serves gen_apis only_ipc InProc gen_default_config n_personal_sign = false /\
+  serves gen_apis only_ipc HTTP cfg_personal n_personal_sign = false /\
+  serves gen_apis only_ipc WS cfg_personal n_personal_sasT = false /\
+  serves gen_apis all_off IPC gen_default_config n_personal_sasT = false /\
+  serves gen_apis all_off HTTP cfg_personal n_personal_sasT = false /\
+  serves_signing gen_apis_clique only_http HTTP gen_default_config n_aqua_sign = true /\
+  serves gen_apis_clique only_http IPC gen_default_config n_aqua_sign = false.
 Proof. vm_compute. repeat split; reflexivity. Qed.
